@@ -125,6 +125,9 @@ def sid_call(j):
             (k, v), = kw.items()
             return jsid(x.get_with(key=k, value=v))
         return jsid(x.get_with(**kw))
+    if m == "path":
+        p = x.path(j["config"]) if j.get("config") is not None else x.path()
+        return None if p is None else to_canon(str(p))
     if m == "match":
         return x.match(j["search"])
     if m in ("eq", "lt", "hash_eq"):
@@ -160,6 +163,10 @@ def step(j):
         return jsid(sid_from(j))
     if op == "sid_call":
         return sid_call(j)
+    if op == "path_to_dict":
+        from spil.sid.pathops import fs_resolver
+        t, data = fs_resolver.path_to_dict(to_real(j["path"]), j.get("type"), config=j.get("config"))
+        return None if not t else [t, jdict(data)]
     if op == "to_dict":
         return jdict(query_helper.to_dict(j["q"]))
     if op == "to_string":
